@@ -138,7 +138,18 @@ CONFIGS = [[s, ow, fn] for fn in FNAMES for ow in (False, True) for s in SCALES]
 LOG_SETS = [['pyfloat'], ['npf64'], ['pyint'], ['npf32'], ['npi64'], ['a0d'], ['vec3'], ['vec2'], ['vec5i'], ['m22'],
             ['m23'], ['m31'], ['pyfloat', 'npf64', 'pyint'], ['pyfloat', 'npf64', 'vec3', 'm22'],
             ['vec3', 'pyint', 'm23', 'a0d'], ['vec1'], ['m11'], ['npf64', 'vec1'], ['vec3r'], ['m23f'],
-            ['pyfloat', 'vec3r', 'm23f', 'vec2'], ['m23x'], ['npf64', 'm23x', 'vec3r']]
+            ['pyfloat', 'vec3r', 'm23f', 'vec2'], ['m23x'], ['npf64', 'm23x', 'vec3r'],
+            # signals that share a tag ('kind@tag'; an empty tag is the default of an untagged signal)
+            ['pyfloat', 'npf64@f', 'vec3', 'pyint@', 'npf32@'], ['vec2', 'vec3@w', 'npf64@'], ['npf64@', 'pyfloat@']]
+
+
+def log_kind(nm):
+    return nm.split('@')[0]
+
+
+def log_tag(nm):
+    return nm.split('@')[1] if '@' in nm else LOG_KINDS[nm]
+
 LOG_FMTS = ['.10e', '.3f', '.5g', 'e']
 LOG_FILES = [['\t', 'log.txt'], [';', 'log.txt'], ['\t', 'log.csv'], [';', 'sub/hist.csv'], [';', 'history'],
              ['\t', 'out.cs'], ['|', 'run.v']]
@@ -159,15 +170,20 @@ def plan(tier, seed):
     large = [(10, 10, 0), (17, 16, 0), (6, 6, 6), (33, 32, 0)]
     large_level = ('vti/large-grids: arrays beyond 256 and 1024 values, depth 1', large, u, list(FLAT) + ['multi_flat'],
                    ['gen'], CONFIGS_EXT, [[['new']], [['new'], ['new']]] if False else all_histories(1, ['new']))
+    # element sizes and scale factors whose decimal expansion does not end after a few digits (1/3, 0.123456789, inches)
+    odd_units = [(1.0 / 3.0, 0.123456789, 1.23456789), (1.0 / 7.0, 2.0 / 3.0, 0.0254123)]
+    odd_level = ('vti/sizes and scales with long decimal expansions, depth 2 over {new}', DEMO_GRIDS + [(3, 2, 0)], odd_units,
+                 ['cell1', 'pt1', 'multi_flat'], ['gen'], [[sc_, ow_, FNAMES[0]] for sc_ in (1.0, 0.0254123, 1e-3 / 3.0)
+                                                            for ow_ in (False, True)], all_histories(2, ['new']))
     if tier == 'quick':
-        return [large_level,
+        return [large_level, odd_level,
                 ('vti/shapes: all small grids x all shapes, depth 2', small, u, vecs, ['gen'], CONFIGS, h2),
                 ('vti/value-kinds: two grids x all shapes x other value kinds, depth 2', DEMO_GRIDS, u, vecs, other,
                  CONFIGS_EXT, h2),
                 ('vti/depth3: two grids x all shapes, depth 3 over {new,same}', DEMO_GRIDS, u, vecs, ['gen'], CONFIGS,
                  all_histories(3, ['new', 'same']))]
     larger = [g for g in grids_upto(6, 3) if g not in small]
-    return [large_level,
+    return [large_level, odd_level,
             ('vti/small-grids x all shapes x {gen,edge}, depth 3', small, u, vecs, ['gen', 'edge'], CONFIGS, h3),
             ('vti/small-grids x all shapes x {int,f32,view}, depth 2', small, u, vecs, ['int', 'f32', 'view'], CONFIGS, h2),
             ('vti/larger-grids x all element sizes x all shapes, depth 2', larger, UNITS, vecs, ['gen'], CONFIGS, h2)]
@@ -593,7 +609,7 @@ def _log_history(case, fmt, sepfile, stale, hist, d, sink):
         os.makedirs(os.path.dirname(path), exist_ok=True)
         with open(path, 'w') as f:
             f.write('Iteration\told\n0\t1.0\n1\t2.0\n2\t3.0\n3\t4.0\n4\t5.0\n')
-    sigs = [pym.Signal(LOG_KINDS[nm], log_value(nm, 0, seed)) for nm in names]
+    sigs = [pym.Signal(log_tag(nm), log_value(log_kind(nm), 0, seed + 7 * j_ * ('@' in nm))) for j_, nm in enumerate(names)]
     size1 = any(isinstance(sg.state, np.ndarray) and sg.state.ndim > 0 and sg.state.size == 1 for sg in sigs)
     has2d = any(isinstance(sg.state, np.ndarray) and sg.state.ndim >= 2 for sg in sigs)
     sigin = {'input': 'size1_array' if size1 else 'array' if any(isinstance(sg.state, np.ndarray) and sg.state.ndim > 0
@@ -618,7 +634,7 @@ def _log_history(case, fmt, sepfile, stale, hist, d, sink):
         if op != 'same':
             k += 1
             for sg, nm in zip(sigs, names):
-                new = log_value(nm, k, seed)
+                new = log_value(log_kind(nm), k, seed + 7 * names.index(nm) * ('@' in nm))
                 if op == 'inplace' and isinstance(sg.state, np.ndarray) and sg.state.ndim > 0:
                     sg.state[...] = new
                 else:
@@ -649,7 +665,7 @@ def _log_history(case, fmt, sepfile, stale, hist, d, sink):
         # header: one non-numeric line naming every signal, one field per column
         ncols = 1 + len(logged[-1])
         hdr_ok = not all(rv.is_number(h) for h in log['header']) and \
-            all(LOG_KINDS[nm] in log['lines'][0] for nm in names)
+            all(log_tag(nm) in log['lines'][0] for nm in names)
         sink.chk(hdr_ok, 'log_header', dict(sigin, what='content'), nar, header=log['lines'][0])
         if usep == ',' and has2d:
             if len(log['header']) != ncols:
@@ -658,7 +674,7 @@ def _log_history(case, fmt, sepfile, stale, hist, d, sink):
             sink.chk(len(log['header']) == ncols, 'log_header', dict(sigin, what='field_count'), nar,
                      header=log['header'], columns=ncols)
         # which entry a column holds: as labelled by the header (tag[i, j]); in index order if it has no such labels
-        order = label_order(log['header'], [np.shape(a_) for a_ in snaps[0]], [LOG_KINDS[nm] for nm in names]) \
+        order = label_order(log['header'], [np.shape(a_) for a_ in snaps[0]], [log_tag(nm) for nm in names]) \
             if len(log['header']) == ncols else None
         if order is not None:
             logged_now = [[float(sn[j][idx]) if idx else float(sn[j]) for j, idx in order] for sn in snaps]
